@@ -493,12 +493,14 @@ func (fr *Frame) exec(st *State) *execResult {
 		last := b.Instrs[len(b.Instrs)-1]
 		switch t := last.(type) {
 		case *ssa.If:
+			// the block is left under the condition reached at its end (calls inlined in the block may have
+			// strengthened it: a callee that panics or whose loop exit is a path fact does not return on every path)
 			c := fr.val(t.Cond).C[0]
 			c = vc.define("if", "Bool", c)
-			fr.setEdge(edgeCond, b, b.Succs[0], andAll(cond, c), cur)
-			fr.setEdge(edgeCond, b, b.Succs[1], andAll(cond, notT(c)), cur)
+			fr.setEdge(edgeCond, b, b.Succs[0], andAll(fr.curCond, c), cur)
+			fr.setEdge(edgeCond, b, b.Succs[1], andAll(fr.curCond, notT(c)), cur)
 		case *ssa.Jump:
-			fr.setEdge(edgeCond, b, b.Succs[0], cond, cur)
+			fr.setEdge(edgeCond, b, b.Succs[0], fr.curCond, cur)
 		}
 	}
 	// merge returns
@@ -714,6 +716,33 @@ func (fr *Frame) backEdgeCheck(li *loopInfo, cond string, st *State, from *ssa.B
 	var invs []*Clause
 	if li.spec != nil {
 		invs = li.spec.Invariants
+	}
+	if li.spec != nil {
+		// proof hints of the loop (`loop K assert E`): proved in the state at the end of the iteration, then assumed
+		aenv := fr.localEnv(st)
+		aenv.entry = li.entrySt
+		for _, c := range li.spec.Asserts {
+			for _, part := range splitConj(c.E) {
+				t, err := aenv.EvalBool(part)
+				if err != nil {
+					fr.specError(c, err)
+					continue
+				}
+				vc.oblige("assert", top.oblFn, fr.oblName(fmt.Sprintf("loop%d-assert", li.ordinal)), cond, t, fr.pos(pos), part.String())
+			}
+		}
+	}
+	if li.spec != nil && len(li.spec.Sets) > 0 {
+		// ghost updates of the loop (`loop K set t := v`): executed here, at the end of the iteration, on a private copy
+		// of the state (the block's out-state may be shared with other edges); locals denote their current values
+		st = st.Clone()
+		for _, gu := range li.spec.Sets {
+			genv := fr.localEnv(st)
+			genv.entry = li.entrySt
+			if err := fr.ghostAssign(st, genv, gu); err != nil {
+				vc.prog.specErrors = append(vc.prog.specErrors, fmt.Sprintf("%s: loop %d ghost update %s: %v", top.oblFn, li.ordinal, gu.Target.String(), err))
+			}
+		}
 	}
 	env := fr.localEnv(st)
 	env.entry = li.entrySt
